@@ -364,6 +364,15 @@ func (w *world) apply(o op) {
 			w.cfgs[o.b][o.t] = cfg{mode: "cb", cbVal: v}
 			w.cur[o.t], w.amb[o.t] = o.b, false
 			w.touched[o.b][o.t] = true
+		case "originonly":
+			// Origin(...) alone configures the next Apply and installs nothing - also on a kept object whose mock was
+			// reset: the target stays as it is
+			t := w.ts[o.t]
+			w.phUsed[t.phAddr] = true
+			if w.sess[[2]int{o.b, o.t}] {
+				w.hist[len(w.hist)-1] += "(kept handle)"
+			}
+			w.lookup(o.b, o.t).Origin(t.ph)
 		case "origin":
 			t := w.ts[o.t]
 			w.phUsed[t.phAddr] = true
@@ -493,6 +502,11 @@ func (w *world) legal(o op) bool {
 		return true
 	}
 	c := w.cfgs[o.b][o.t]
+	if o.kind == "originonly" {
+		// only where this builder has nothing live on the target (what Origin does to a live configuration is the
+		// "origin" instruction's business) and the target can have a placeholder at all
+		return (c.mode == "none" || c.mode == "") && !w.ts[o.t].refusesOrigin && !w.poisoned[[2]int{o.b, o.t}]
+	}
 	if w.sess[[2]int{o.b, o.t}] && o.kind != "applyA" && o.kind != "applyB" && o.kind != "cancel" {
 		// stubbing through a mocker object after its own Cancel is not a use the statement covers
 		// (on the pinned tree the stale stub forwards to the patched function itself): sessions only Apply and Cancel
@@ -560,7 +574,7 @@ func TestC02(t *testing.T) {
 		}
 	}
 	rep.Stat("max:targets_sharing_a_page_with_another_target", int64(share))
-	kinds := []string{"applyA", "applyB", "origin", "return", "when", "cancel", "reset", "applyA", "return", "when", "badapply", "badorigin", "badorigin"}
+	kinds := []string{"applyA", "applyB", "origin", "return", "when", "cancel", "reset", "applyA", "return", "when", "badapply", "badorigin", "badorigin", "originonly"}
 	for h := 0; h < nh; h++ {
 		nb := 1 + rng.Intn(3)
 		w := newWorld(rep, img, ts, ns, nb)
